@@ -1,6 +1,7 @@
 package checks
 
 import (
+	"time"
 	"fmt"
 	"strings"
 
@@ -256,6 +257,38 @@ func disc(i int, phase int) mc.Op {
 func cacheScenarios(tier string) []*mc.Scenario {
 	var out []*mc.Scenario
 	props := []string{"C09"}
+	// two connections subscribe to an uncached resource, and the second one's
+	// request arrives and is handled while the first one's mq.Subscribe call is
+	// still in progress (a window opened inside that call, see Sched.Window):
+	// on the unchanged tree the second connection waits for the cache lock
+	out = append(out, &mc.Scenario{
+		Name: "cache/subscribe-window", Props: props, Monitors: allMons(),
+		Init: func(w *mc.World) {
+			basicInit(w)
+			w.MQ.SubWindow = func(ns string) {
+				if ns != "event.test.x" || w.Data["window"] != nil || len(w.Conns) < 2 || w.Conns[1].Disposed {
+					return
+				}
+				w.Data["window"] = "used"
+				w.SendRequest(w.Conns[1], "subscribe.test.x", "")
+				for i := 0; i < 2000; i++ { // until the connection worker has picked the request up
+					if a := w.S.ConnActor(w.Conns[1].CID); a != nil {
+						w.S.Window(a, 30*time.Millisecond)
+						return
+					}
+					time.Sleep(50 * time.Microsecond)
+				}
+			}
+		},
+		Conns: []mc.ConnSpec{
+			conn(latest, req("subscribe.test.x", 1), req("unsubscribe.test.x", 3)),
+			conn(latest, mc.ClientReq{Method: "unsubscribe.test.x", Phase: 3, When: func(w *mc.World) bool { return w.Data["window"] != nil }}),
+		},
+		Threads: []mc.Thread{{Name: "svc", Ops: []mc.Op{
+			op("x.n=1", 2, func(w *mc.World) { w.Svc.Change("test.x", "n", `1`) }),
+		}}},
+		Bound: map[string]int{"quick": 1, "thorough": 2},
+	})
 	out = append(out, &mc.Scenario{
 		Name: "cache/lifecycle", Props: props, Init: basicInit, Monitors: allMons(),
 		Conns: []mc.ConnSpec{
